@@ -8,7 +8,8 @@ From Dagrt Require Import Lang LangCheck Builder Sched FortranTarget.
 (* what was observed after one call: the value of every field of dagrt_state_type (None: NaN /
    not allocated / not associated) and the next phase *)
 Record xstep := mkX { x_vals : list (option val); x_next : string }.
-Inductive xend := XDone | XHalt (k : string) | XInvalid.
+Inductive xend := XDone | XHalt (k : string) | XInvalid
+                | XAbort.    (* the program died in the next call with a floating-point trap (-ffpe-trap=invalid) *)
 
 Record case3 := mkCase {
   q_prog : list bphase;
@@ -25,11 +26,11 @@ Definition vals_match (univ : list var) (s : store) (x : xstep) : bool :=
 
 Section Chk.
   Variables del_guarded lhs_sub_reads loop_bound_reads : bool.
-  Variables cond_honoured ite_flag_first ubound_m1 switch_exits next_first ne_fortran : bool.
+  Variables cond_honoured ite_flag_first ubound_m1 switch_exits next_first guard_outside ne_fortran : bool.
   Variables is_state persistent : var -> bool.
   Variable tok : var.
 
-  Notation fcall' tids := (fcall F03 del_guarded cond_honoured ite_flag_first ubound_m1 switch_exits next_first tids is_state).
+  Notation fcall' tids := (fcall F03 del_guarded cond_honoured ite_flag_first ubound_m1 switch_exits next_first guard_outside tids is_state).
   Notation istep' tids := (istep F03 del_guarded tids persistent).
 
   Fixpoint walk_f (tids : list string) (univ : list var) (P : fprog) (exp : list xstep) (fin : xend)
@@ -40,6 +41,7 @@ Section Chk.
         | XDone, _ => true
         | XHalt k, FOHalt _ k' => String.eqb k k'
         | XInvalid, FOInvalid => true
+        | XAbort, FOUndef => true        (* the model calls that call undefined *)
         | _, _ => false
         end
     | e :: r =>
